@@ -311,6 +311,9 @@ impl Sim {
     }
 
     fn pre_step(&mut self) -> BTreeMap<Vec<u8>, Vec<u8>> {
+        // what the harness's own queries (state comparison after the previous step) left in the recorders
+        let _ = self.world.take_module_calls();
+        self.world.0.borrow_mut().call_counts = self.model.call_counts.clone();
         let snap = self.app.storage().snapshot();
         self.malformed_before = self.malformed_count();
         self.not_admin_before = self.not_admin_count();
@@ -557,7 +560,9 @@ impl Sim {
             if r.code_tag != m.code_tag {
                 // (a reply served by another code than the dispatching contract's current one did not reach
                 // "the dispatching contract's reply entry point": C03 as well)
-                let props: &[&str] = if m.kind == "reply" { &["C12", "C11", "C03"] } else { &["C12", "C11"] };
+                // ... and the migration that completed inside the sub-message was not "visible to everything
+                // that runs after it in the same transaction": C02 too)
+                let props: &[&str] = if m.kind == "reply" { &["C12", "C11", "C03", "C02"] } else { &["C12", "C11"] };
                 self.v(props, "served_by_wrong_code", format!("{}: served by code tag {} expected {}", at, r.code_tag, m.code_tag));
             }
             if r.sender != m.sender {
@@ -596,7 +601,13 @@ impl Sim {
             if r.reads != m.reads {
                 let j = r.reads.iter().zip(m.reads.iter()).position(|(a, b)| a != b).unwrap_or(0);
                 let d = format!("{}: own-storage read #{} returned {:?} expected {:?}", at, j, r.reads.get(j), m.reads.get(j));
-                self.v(&["C08", "C02", "C06", "C12"], "in_call_read", d);
+                // in a batch of several messages a wrong read is also "each seeing its predecessors' effects" (C01)
+                let multi = what.starts_with("execute_multi(") && !what.starts_with("execute_multi(1 ");
+                if multi {
+                    self.v(&["C08", "C02", "C06", "C12", "C01"], "in_call_read", d);
+                } else {
+                    self.v(&["C08", "C02", "C06", "C12"], "in_call_read", d);
+                }
             }
             if r.post_reads != m.post_reads {
                 let j = r.post_reads.iter().zip(m.post_reads.iter()).position(|(a, b)| a != b).unwrap_or(0);
@@ -823,6 +834,7 @@ impl Sim {
                 let cs = self.model.names.coins(coins, &|_| 0);
                 self.op_mint(to, cs)
             }
+            Op::SetDenomMeta { denom, tag } => self.op_set_denom_meta(*denom, *tag),
             Op::MintRaw { to, coins } => self.op_mint(to, coins.iter().map(|(d, m, sh)| (d.clone(), (*m as u128) << (*sh).min(127))).collect()),
             Op::HInstantiate { sender, code, slot, node, funds, label, admin, salt } => {
                 let m = MsgSpec::Inst { code: *code, slot: *slot, node: Box::new(node.clone()), funds: funds.clone(), label: label.clone(), admin: admin.clone(), salt: salt.clone() };
@@ -962,7 +974,7 @@ impl Sim {
                 *c += 1;
                 j
             };
-            if kind == "bank.sudo" {
+            if kind == "bank.sudo" || kind == "bank.query" {
                 continue;
             }
             let key = (kind.clone(), counts_before.get(kind).copied().unwrap_or(0) + j);
@@ -1026,6 +1038,43 @@ impl Sim {
             true,
             &["C09"],
         )
+    }
+
+    fn op_set_denom_meta(&mut self, denom: u32, tag: u8) -> bool {
+        let before = self.pre_step();
+        let d = self.model.names.denom(denom);
+        let name = format!("meta-{}-{}", d, tag);
+        let meta = cosmwasm_std::DenomMetadata {
+            description: format!("description of {}", d),
+            denom_units: vec![],
+            base: d.clone(),
+            display: d.clone(),
+            name: name.clone(),
+            symbol: d.to_uppercase(),
+            uri: String::new(),
+            uri_hash: String::new(),
+        };
+        let app = &mut self.app;
+        let dd = d.clone();
+        let real: RealOut<Vec<AppResponse>> = guarded(|| {
+            app.init_modules(|router, _api, storage| router.bank.inner.set_denom_metadata(storage, dd, meta))?;
+            Ok(vec![])
+        });
+        self.stats.steps += 1;
+        match real {
+            RealOut::Ok(_) => {
+                self.model.denom_meta.insert(d.clone(), name);
+            }
+            RealOut::Err(e) => self.v(&["C09"], "denom_metadata", format!("set_denom_metadata({}) failed: {}", d, e)),
+            RealOut::Panic(p) => self.v(&["C09"], "panic", format!("set_denom_metadata({}) panicked: {}", d, p)),
+        }
+        // exactly one root entry may have changed
+        let after = self.app.storage().snapshot();
+        let changed: Vec<&Vec<u8>> = after.iter().filter(|(k, v)| before.get(*k) != Some(*v)).map(|(k, _)| k).chain(before.keys().filter(|k| !after.contains_key(*k))).collect();
+        if changed.len() > 1 {
+            self.v(&["C08", "C09"], "unexplained_root_write", format!("set_denom_metadata({}) changed {} root entries", d, changed.len()));
+        }
+        self.viol.is_empty()
     }
 
     fn op_helper(&mut self, sender: u32, m: &MsgSpec) -> bool {
@@ -1334,7 +1383,14 @@ impl Sim {
         for i in 0..na {
             qs.push(QueryOp::AllDelegations { who: Target::Account(i) });
         }
+        qs.push(QueryOp::AllDenomMeta);
+        for d in 0..names.denoms.len() as u32 + 1 {
+            qs.push(QueryOp::DenomMeta { denom: d });
+        }
         self.model.module_calls.clear();
+        // (what the state comparison after the previous step asked is not part of this battery)
+        let _ = self.world.take_module_calls();
+        self.world.0.borrow_mut().call_counts = self.model.call_counts.clone();
         let digest0 = self.app.storage().digest();
         let writes0 = self.app.storage().writes();
         for q in &qs {
@@ -1376,7 +1432,12 @@ impl Sim {
         }
         let real_calls = self.world.take_module_calls();
         if real_calls != self.model.module_calls {
-            self.v(&["C17", "C10"], "module_call_mismatch", format!("queries: module calls {} expected {}", real_calls.len(), self.model.module_calls.len()));
+            let i = real_calls.iter().zip(self.model.module_calls.iter()).position(|(a, b)| a != b).unwrap_or(real_calls.len().min(self.model.module_calls.len()));
+            self.v(
+                &["C17", "C10"],
+                "module_call_mismatch",
+                format!("queries: module calls {} expected {}; first difference at #{}: real {:?} expected {:?}", real_calls.len(), self.model.module_calls.len(), i, real_calls.get(i), self.model.module_calls.get(i)),
+            );
         }
         self.check_caching("App-level queries", &real_calls);
         let _ = self.world.take_trace();
